@@ -93,7 +93,7 @@ class MessageManager(interfaces.TokenInterface, interfaces.MessageManager):
         sublayers of CoAP"""
 
         self.log.debug("Incoming message %r", message)
-        if message.code.is_request():
+        if message.code.is_request() and message.mtype in (CON, NON):
             # Responses don't get deduplication because they "are idempotent or
             # can be handled in an idempotent fashion" (RFC 7252 Section 4.5).
             # This means that a separate response may get a RST when it is
